@@ -112,9 +112,22 @@ class C11(Check):
         return {"ws": ws, "read_seed": rng.randrange(1 << 30)}
 
     def execute(self, scn: dict) -> Outcome:
-        from ..worlds.workspace import World, classify_exc
         out = Outcome()
-        ws = scn["ws"]
+        w = self._phase(scn, scn["ws"], out, None, "")
+        try:
+            # history: the same files are revised in place (same names and versions; one section's sealing / extent or one
+            # port-ID changes, which can make a conforming family violating or the other way round) and read again in the same
+            # process: each verdict is about the set of definitions as it is now
+            ws2 = revise_family(scn["ws"], scn["read_seed"])
+            if ws2 is not None:
+                out.stats["revised_in_place"] += 1
+                self._phase(dict(scn, read_seed=scn["read_seed"] ^ 0x5A5A), ws2, out, w, " (after the files were revised in place)")
+        finally:
+            w.close()
+        return out
+
+    def _phase(self, scn: dict, ws: dict, out: Outcome, w, tag: str):
+        from ..worlds.workspace import World, classify_exc
         uni = Universe(ws)
         if uni.dups:
             raise InvalidScenario("duplicate keys")
@@ -149,8 +162,17 @@ class C11(Check):
             for a in op["roots"]:
                 a["st"] = "abs" if a["st"] == "name" else a["st"]
             reads.append(op)
-        w = World({"ws": ws, "symlinks": W.symlinks_for(ws)})
-        try:
+        if w is None:
+            w = World({"ws": ws, "symlinks": W.symlinks_for(ws)})
+        else:
+            import os, shutil
+            from ..model.render import render
+            for r0 in uni.roots:
+                shutil.rmtree(w.abs(r0["dir"]), ignore_errors=True)
+                os.makedirs(w.abs(r0["dir"]), exist_ok=True)
+            for ri0, d0 in uni.all:
+                w.write(uni.file_of_def(ri0, d0), render(d0, None)[0])
+        if True:
             names = [d["name"] for d in uni.defs.values()]
             ports = [d["port"] for d in uni.defs.values() if d.get("port") is not None]
             out.nontrivial = len(set(names)) < len(names) or len(set(ports)) < len(ports)
@@ -170,7 +192,7 @@ class C11(Check):
                     for k in kinds:
                         out.stats["rule:" + k] += 1
                     if res["ok"]:
-                        out.fail("C11.reject", "read %d (%s of %s): model says reject (%s) but the call returned" % (i, op["op"], targets, reasons[:3]), "accepted:" + "+".join(kinds))
+                        out.fail("C11.reject", "read %d%s (%s of %s): model says reject (%s) but the call returned" % (i, tag, op["op"], targets, reasons[:3]), "accepted:" + "+".join(kinds))
                     elif status != "IDE":
                         out.fail("C11.reject", "read %d: rejected with %s: %s" % (i, type(res["exc"]).__name__, str(res["exc"])[:300]), "wrong-class:" + type(res["exc"]).__name__)
                 elif opens:
@@ -178,11 +200,40 @@ class C11(Check):
                 else:
                     out.stats["must_accept"] += 1
                     if not res["ok"]:
-                        out.fail("C11.accept", "read %d (%s of %s): conforming set rejected: %s: %s" % (i, op["op"], targets, type(res["exc"]).__name__, str(res["exc"])[:400]),
+                        out.fail("C11.accept", "read %d%s (%s of %s): conforming set rejected: %s: %s" % (i, tag, op["op"], targets, type(res["exc"]).__name__, str(res["exc"])[:400]),
                                  "rejected:" + type(res["exc"]).__name__)
-        finally:
-            w.close()
-        return out
+        return w
+
+
+def revise_family(ws: dict, seed: int):
+    """The same definitions with ONE change in a definition that has a sibling under the same name and major version: sealing
+    flipped, extent changed, or port-ID set / removed / changed. Returns None if there is no such family."""
+    import copy
+    rng = random.Random(seed ^ 0xFA111)
+    ws2 = copy.deepcopy(ws)
+    defs = [d for r0 in ws2["roots"] for d in r0["defs"]]
+    fam = [d for d in defs if sum(1 for x in defs if x["name"] == d["name"] and x["ver"][0] == d["ver"][0]) >= 2]
+    if not fam:
+        return None
+    d = rng.choice(fam)
+    sib = [x for x in defs if x is not d and x["name"] == d["name"] and x["ver"][0] == d["ver"][0]]
+    how = rng.choice(["mode", "mode", "extent", "port", "copy-sibling"])
+    si = rng.randrange(len(d["secs"]))
+    s = d["secs"][si]
+    nbytes = sum(1 for it in s["items"] if it[0] == "f")
+    if how == "copy-sibling" and len(sib[0]["secs"]) == len(d["secs"]):
+        # make it conform to a sibling (a violating family may become conforming)
+        for a, b in zip(d["secs"], sib[0]["secs"]):
+            a["items"], a["seal"], a["union"] = copy.deepcopy(b["items"]), b["seal"], b.get("union", False)
+        d["port"] = sib[0].get("port") if rng.random() < 0.7 else d.get("port")
+    elif how == "mode" or how == "copy-sibling":
+        s["seal"] = 8 * (nbytes + rng.choice([0, 1, 2])) if s["seal"] == "sealed" else "sealed"
+    elif how == "extent":
+        s["seal"] = (s["seal"] + 8 * rng.choice([1, 2])) if isinstance(s["seal"], int) else 8 * (nbytes + 1)
+    else:
+        pool = [0, 256, 511] if len(d["secs"]) == 2 else [0, 6144, 7167, 8191]
+        d["port"] = rng.choice([p0 for p0 in pool + [None] if p0 != d.get("port")])
+    return ws2
 
 
 CHECK = C11()
